@@ -33,6 +33,7 @@ def run(tier, seed):
         PID, tier, seed, mc, rp,
         level_text='TLC exhaustive + replay of every behaviour of the dumped state graphs into the real Process',
         assumptions=C.ASSUMPTIONS + ['three listeners are attached (one recording, two counting): every listener must be told each event exactly once even when another listener raises', 'the five accessor families (future, result, successful/is_successful, killed/killed_msg, exception) are read from the real process after every action and must agree with each other and with the specification state'],
+        suite_traces=lambda e: e[0] == 'obs',
         rule='every interleaving of <=K control requests (incl. kill while paused, during a step, from a listener) with every program; accessor agreement, notification/cleanup counts and stepping-task completion compared after every action')
 
 
